@@ -511,7 +511,7 @@ Proof.
     - intros x. autorewrite with rd. rewrite Rf, Ri. destruct (Nat.eqb_spec v x) as [Hvx|Hvx]; intros Hx; apply H6.
       + subst x. destruct Hx; [auto|discriminate].
       + assumption. }
-  fold s1. destruct (owned s1 v) eqn:Eo; rewrite Hown1 in Eo.
+  fold s1. rewrite Hown1. destruct (flag KIn s v || flag KOut s v) eqn:Eo.
   - apply Hfin; intros; unfold s1; autorewrite with rd; try reflexivity. rewrite Eo. assumption.
   - apply Hfin; intros; unfold s1; autorewrite with rd; try reflexivity.
     + destruct (Nat.eqb_spec v y); [congruence|reflexivity].
